@@ -1591,7 +1591,7 @@ def c04(report, rng, tier, findings):
     for i in range(n):
         nv = rng.choice((1, 1, 2, 2))
         cfg = gen.Cfg(n_vars=(nv, nv), n_objs=(2, 5 if nv == 1 else 3), depth=2, empty_domain=0.0,
-                      dup_domain=0.35, select_all=1.0)
+                      dup_domain=0.35, select_all=1.0, closed=0.04)
         base = gen.gen_case(rng, cfg, f'h{i}')
         # every variable ranges over the root class: no (type-filtered) empty domain (that is C02-F1's territory)
         base['vars'] = [(vid, 'A', raw) for vid, _, raw in base['vars']]
